@@ -1038,38 +1038,27 @@ fn dl_cand(r: &str, probe: u32) -> String {
     let line = match materialize(r) {
         None => format!("cand {r} readable=0 crc=0 parses=0 marker=?"),
         Some(d) => {
+            // the harness's own CRC-32 of the whole file
             let crc = gnu_debuglink_crc32(&d);
-            let refmain = format!("elf:b=feedfacefeedfacefeedfacefeedface00000000;m=refmain_marker;dl=ref.dbg/{crc:08x}");
-            let mut m = Mem::default();
-            m.files.insert("main".into(), materialize(&refmain).unwrap());
-            m.files.insert("dl0".into(), d);
-            m.dl_cands.push("dl0".into());
-            let sm = SymbolManager::with_helper(m);
-            let marker = match catch_unwind(AssertUnwindSafe(|| block(sm.load_symbol_map_from_location(Loc("main".into()), None)))) {
-                Ok(Ok(map)) => marker_of(&map, probe),
-                _ => "refmain_marker".into(),
-            };
-            if marker == "refmain_marker" || (probe != PROBE_ADDR && marker == "nosym") {
-                // with a foreign probe address the reference main itself shows `nosym`
-                let used = marker == "nosym" && probe != PROBE_ADDR && {
-                    // distinguish "companion used but has nothing at probe" from "not used": probe the
-                    // reference main's own symbol
-                    let mut m2 = Mem::default();
-                    m2.files.insert("main".into(), materialize(&refmain).unwrap());
-                    m2.files.insert("dl0".into(), materialize(r).unwrap());
-                    m2.dl_cands.push("dl0".into());
-                    let sm2 = SymbolManager::with_helper(m2);
-                    match block(sm2.load_symbol_map_from_location(Loc("main".into()), None)) {
-                        Ok(map) => marker_of(&map, PROBE_ADDR) != "refmain_marker",
-                        Err(_) => false,
-                    }
-                };
-                if used {
-                    format!("cand {r} readable=1 crc={crc} parses=1 marker=nosym")
-                } else {
-                    format!("cand {r} readable=1 crc={crc} parses=0 marker=?")
-                }
+            // With `override_debug_id` (elf.rs:147) the only way an accepted companion can still fail is
+            // `object::File::parse` (elf.rs:393); asked directly, not through the CRC-guarded path.
+            let parses = samply_symbols::object::File::parse(&d[..]).is_ok();
+            if !parses {
+                format!("cand {r} readable=1 crc={crc} parses=0 marker=?")
             } else {
+                let refmain = format!("elf:b=feedfacefeedfacefeedfacefeedface00000000;m=refmain_marker;dl=ref.dbg/{crc:08x}");
+                let mut m = Mem::default();
+                m.files.insert("main".into(), materialize(&refmain).unwrap());
+                m.files.insert("dl0".into(), d);
+                m.dl_cands.push("dl0".into());
+                let sm = SymbolManager::with_helper(m);
+                let marker = match catch_unwind(AssertUnwindSafe(|| block(sm.load_symbol_map_from_location(Loc("main".into()), None)))) {
+                    // the reference main shows `refmain_marker` at PROBE_ADDR; anything else there means the companion is in use
+                    Ok(Ok(map)) if marker_of(&map, PROBE_ADDR) != "refmain_marker" => marker_of(&map, probe),
+                    // an object file whose whole-file CRC-32 is the stated one was refused: the code's CRC differs
+                    // from the independent one
+                    _ => "crc-drift".to_string(),
+                };
                 format!("cand {r} readable=1 crc={crc} parses=1 marker={marker}")
             }
         }
@@ -1729,6 +1718,23 @@ mod families {
             let g = dl_cand(&genuine, PROBE_ADDR);
             out.push(Case { name: format!("dlbig-{len}-genuine"), ops: vec![hd.clone(), g.clone()] });
             out.push(Case { name: format!("dlbig-{len}-missing-genuine"), ops: vec![hd.clone(), dl_cand("missing", PROBE_ADDR), g.clone()] });
+            // the main file stating the CRC of a *part* of the genuine file (all full chunks but the last one / up to
+            // each chunk boundary / the tail chunk alone / everything but the last byte): the genuine file has to be refused
+            let gd = materialize(&genuine).unwrap();
+            let mut parts: Vec<(String, std::ops::Range<usize>)> = vec![("tail".into(), (len - 1) / CHUNK * CHUNK..len), ("butlast".into(), 0..len - 1), ("first4k".into(), 0..4096)];
+            let mut bnd = CHUNK;
+            while bnd < len {
+                parts.push((format!("upto{bnd}"), 0..bnd));
+                bnd += CHUNK;
+            }
+            for (pt, range) in parts {
+                if range.start == 0 && range.end == len {
+                    continue;
+                }
+                let pcrc = gnu_debuglink_crc32(&gd[range]);
+                let pmain = format!("elf:b={b};m=main_sym;dl=x.dbg/{pcrc:08x}");
+                out.push(Case { name: format!("dlbig-{len}-partcrc-{pt}"), ops: vec![dl_header(&pmain, PROBE_ADDR), g.clone()] });
+            }
             // one flipped byte: last byte of the file, both sides of every chunk boundary, first byte of the tail
             // chunk, first byte of the padding, middle of the file
             let tail_start = (len - 1) / CHUNK * CHUNK;
